@@ -65,6 +65,8 @@ def type_features(spec, ty, modname, _seen=None, _depth=0):
             f.add('size-fixed')
     if r.alpha is not None:
         f.add('from')
+    if r.alpha_ext is not None:
+        f.add('from-ext')
     if b.named_bits:
         f.add('named-bits')
     if b.named:
@@ -334,6 +336,7 @@ class SpecValueCheck(_Check):
         p = gen.Profile()
         if tier == 'thorough':
             p.max_types, p.max_depth = 6, 4
+            p.big_size_shapes = gen.BIG_SIZE_SHAPES + gen.HUGE_SIZE_SHAPES
         if _os.environ.get('ASN1V_SMALL') == '1':
             p.max_types, p.max_depth, p.max_members, p.max_modules = 2, 2, 3, 1
         return p
@@ -353,7 +356,8 @@ class SpecValueCheck(_Check):
             out.append({'codec': codec, 'ne': False, 'directed': True})
         i = 0
         while len(out) < 16:
-            out.append({'codec': self.codecs[i % len(self.codecs)], 'ne': False, 'extra': i,
+            ne = (i // len(self.codecs)) % 2 == 1 and True in self.numeric_enums_variants
+            out.append({'codec': self.codecs[i % len(self.codecs)], 'ne': ne, 'extra': i,
                         'big': tier == 'thorough'})
             i += 1
         return out
